@@ -397,10 +397,6 @@ asn1f_fix_constructed(arg_t *arg) {
 		return 0;
 	}
 
-	/* Check identifier distinctness */
-	ret = asn1f_check_unique_expr(arg);
-	RET2RVAL(ret, rvalue);
-
 	/* Fix extensibility */
 	ret = asn1f_fix_constr_ext(arg);
 	RET2RVAL(ret, rvalue);
@@ -411,6 +407,10 @@ asn1f_fix_constructed(arg_t *arg) {
 
 	/* Import COMPONENTS OF stuff */
 	ret = asn1f_pull_components_of(arg);
+	RET2RVAL(ret, rvalue);
+
+	/* Check identifier distinctness, including the imported components */
+	ret = asn1f_check_unique_expr(arg);
 	RET2RVAL(ret, rvalue);
 
 	return rvalue;
